@@ -140,6 +140,10 @@ func (u *Unmarshaler) fillSlice(fieldType reflect.Type, value reflect.Value,
 	// the field may be a pointer to a slice
 	fieldType = Deref(fieldType)
 	refValue := reflect.ValueOf(mapValue)
+	if !refValue.IsValid() {
+		// a null where a slice is expected, e.g. as a map element
+		return newTypeMismatchErrorWithHint(fullName, reflect.Slice.String(), "nil")
+	}
 	if refValue.Kind() != reflect.Slice {
 		return newTypeMismatchErrorWithHint(fullName, reflect.Slice.String(), refValue.Type().String())
 	}
